@@ -808,7 +808,18 @@ impl ObjectStoreMetadataClient {
 
         let catalog = cas_retry!({
             let (mut catalog, etag) = self.load_catalog_with_etag().await?;
-            catalog.chunks.insert(path.to_string(), extended.clone());
+            if catalog
+                .chunks
+                .insert(path.to_string(), extended.clone())
+                .is_some()
+            {
+                // Re-registration (a resumed back-fill, a retry on top of its own committed
+                // write): the index must list the path once, under the new range only.
+                for chunks in catalog.time_index.values_mut() {
+                    chunks.retain(|p| p != path);
+                }
+                catalog.time_index.retain(|_, chunks| !chunks.is_empty());
+            }
 
             let start_bucket = Self::hour_bucket(metadata.min_timestamp);
             let end_bucket = Self::hour_bucket(metadata.max_timestamp);
